@@ -545,6 +545,79 @@ func runC16(p *core.Prog, r *core.Report) {
 	c16R5(p, r)
 	// a platform-specific result is cached under a key that distinguishes everything the selection reads (shared with C18.R7)
 	lossyKeyRule(p, r, "C16.R6")
+	c16R7(p, r)
+}
+
+// c16R7: what a function literal remembers across its calls does not depend on the call that
+// computed it. A captured variable that is filled once (`if v == nil { v = ... }`) is the same for
+// every later call, so the value stored must be computed from what is captured (and from the
+// plumbing every call shares: the context, the client), never from the arguments of the current
+// call. A step of the image walk that remembers the base manifest *after* resolving it for the
+// platform of the image it is looking at hands every later platform the first platform's entry.
+func c16R7(p *core.Prog, r *core.Report) {
+	const rule = "C16.R7"
+	r.Rule(rule, "a remembered value does not depend on the call that computed it: in a function literal, a store to a captured variable made behind a nil test of that variable carries a value computed from captured state, the context and the client only, not from the literal's other parameters (a platform-resolved manifest remembered by a per-image step is reused for every other platform)", 0)
+	plumbing := func(t types.Type) bool {
+		if core.IsNamed(t, "context", "Context") {
+			return true
+		}
+		if pt, ok := t.(*types.Pointer); ok {
+			if core.IsNamed(pt.Elem(), modPath("."), "RegClient") {
+				return true
+			}
+		}
+		return false
+	}
+	n := 0
+	lab := map[*ssa.Function]labeler{}
+	for _, fn := range p.ModFuncs {
+		if len(fn.FreeVars) == 0 || len(fn.Blocks) == 0 {
+			continue
+		}
+		for _, b := range fn.Blocks {
+			for _, in := range b.Instrs {
+				st, ok := in.(*ssa.Store)
+				if !ok {
+					continue
+				}
+				fv, ok := st.Addr.(*ssa.FreeVar)
+				if !ok {
+					continue
+				}
+				// an error collected by a deferred literal is not a remembered value
+				if pt, isPtr := fv.Type().(*types.Pointer); isPtr && isErr(pt.Elem()) {
+					continue
+				}
+				// behind `*fv == nil`
+				if !anyGuard(b, func(c ssa.Value, pol bool) bool {
+					x, neq, isCmp := errCmpNil(c)
+					if !isCmp || neq == pol {
+						return false
+					}
+					l, isLoad := x.(*ssa.UnOp)
+					return isLoad && l.Op == token.MUL && l.X == fv
+				}) {
+					continue
+				}
+				n++
+				var bad []string
+				for prm := range dataDeps(st.Val) {
+					if prm.Parent() == fn && !plumbing(prm.Type()) {
+						bad = append(bad, prm.Name())
+					}
+				}
+				sort.Strings(bad)
+				if lab[fn] == nil {
+					lab[fn] = labeler{}
+				}
+				r.Check(len(bad) == 0, rule, p.FuncName(fn), lab[fn].next("value remembered in "+fv.Name()), p.Pos(st.Pos()),
+					"the value stored once into the captured variable is computed from the parameters of the current call ("+strings.Join(bad, ", ")+"): every later call, made for a different image or platform, is served the first call's value")
+			}
+		}
+	}
+	if n == 0 {
+		r.Held(rule, "module", "remembered values", "", "no function literal fills a captured variable behind a nil test")
+	}
 }
 
 // c16R5: the platform that is asked for is the platform that is selected for. A string parsed into a
